@@ -4,9 +4,9 @@ package main
 
 import (
 	"fmt"
-	"sort"
 	"go/constant"
 	"go/types"
+	"sort"
 	"strings"
 
 	"golang.org/x/tools/go/ssa"
@@ -524,8 +524,7 @@ func (r *Run) evalBinary(env *SpecEnv, x EBinary) SV {
 			T = b.T
 		}
 		if a.t.Sort == "Str" && x.Op == "+" {
-			r.eng.u.ufunc("str_concat", []string{"Str", "Str"}, "Str")
-			return SV{t: app("Str", "str_concat", a.t, b.t), T: T}
+			return SV{t: r.eng.u.strConcat(a.t, b.t), T: T}
 		}
 		return SV{t: app(a.t.Sort, x.Op, a.t, b.t), T: T}
 	case "/":
@@ -701,6 +700,10 @@ func (r *Run) evalCall(env *SpecEnv, x ECall) SV {
 		}
 		i := r.eval(env, x.Args[1])
 		return SV{t: sel(sel(r.heapGet(env.cur, bk), ch.t), i.t), T: et}
+	case "itoa":
+		// itoa(n): decimal rendering (strconv.Itoa / FormatInt base 10), injective
+		v := r.eval(env, x.Args[0])
+		return SV{t: r.itoa(v.t), T: types.Typ[types.String]}
 	case "sprintf":
 		// sprintf(format, args...): the same uninterpreted function the executor uses for fmt.Sprintf
 		f := r.eval(env, x.Args[0])
@@ -923,10 +926,10 @@ func (r *Run) callPure(env *SpecEnv, pf *PureFunc, args []Expr) SV {
 }
 
 type pureInst struct {
-	name    string
+	name     string
 	heapKeys []string
-	retSort string
-	retT    types.Type
+	retSort  string
+	retT     types.Type
 }
 
 func (r *Run) applyPure(env *SpecEnv, pf *PureFunc, args []SV) SV {
@@ -1237,7 +1240,6 @@ func (r *Run) evalLoc(env *SpecEnv, e Expr) *Loc {
 	return nil
 }
 
-
 // emitAxioms asserts the (assumed) axioms that constrain an uninterpreted spec function,
 // the first time that function is used in a run.
 func (r *Run) emitAxiomsFor(pf *PureFunc) {
@@ -1260,7 +1262,6 @@ func (r *Run) emitAxiomsFor(pf *PureFunc) {
 		r.axiomsUsed = append(r.axiomsUsed, ax.PkgPath+": "+ax.Name+": "+ax.Src)
 	}
 }
-
 
 // qualifiedGhost: pkg.ghostVar
 func (r *Run) qualifiedGhost(env *SpecEnv, x ESel) *GhostVar {
